@@ -4,7 +4,8 @@ Three correspondence streams tie `lean/SynKitModel/Petri.lean` (about which Prop
 the property) to the working tree:
 
 * structure: `find_siphons` / `find_traps` (and `PetriAnalyzer`) vs the model, families compared as
-  sets of label sets; on a difference the Lean command `spec.petri.minimal` evaluates the right-hand
+  sets of label sets; inputs are CRNHyperGraphs and plain NetworkX bipartite graphs in every documented
+  variation (graph class, node typing, missing `stoich`, arc direction, ids, labels, order, exporter options); on a difference the Lean command `spec.petri.minimal` evaluates the right-hand
   side of `siphons_spec` / `traps_spec` on what the implementation returned;
 * firing: `PetriNet.add_transition / enabled / fire / marking_to_tuple` vs the model on random nets,
   markings (with missing places) and ids (unknown id -> KeyError);
@@ -99,10 +100,235 @@ def undirected_ok(desc):
     return all(not ({sp for sp, _ in r["r"]} & {sp for sp, _ in r["p"]}) for r in desc["reactions"])
 
 
+# --------------------------------------------------------------- plain-networkx inputs, every documented variation
+# `find_siphons` / `find_traps` / `PetriAnalyzer` accept "CRNHyperGraph or bipartite graph".  A case with an
+# `nx` entry hands them a plain NetworkX graph.  The entry fixes the coarse choices (counted in the evidence);
+# the fine ones (which node gets which flag, which arc loses its `stoich`, insertion order, ...) come from a
+# private `random.Random(rseed)` whose seed was drawn from `ctx.rnd`, so a stored case rebuilds the same graph.
+#
+#   via     'hand'   : built here node by node        | 'export': `hypergraph_to_bipartite(H, **opts)`
+#   cls     DiGraph | MultiDiGraph | Graph | MultiGraph  (export: the exported DiGraph copied into that class)
+#   flags   kind | bipartite | both | mixed               node typing by `kind`, by the `bipartite` flag, or both
+#   stoich  all | none | mixed                            arcs without `stoich` count once (coefficient 1)
+#   arcs    forward | reversed | mixed                    species->reaction for a reactant or the other way
+#                                                         round; the `role` attribute is the convention
+#   ids     str | int | mixed | label                     'S:A'/'R:r_1', integers, both kinds, or bare label / id
+#   labels  all | none | mixed                            species without `label` are reported as str(node id)
+#   order   given | reversed | shuffled | edges-first     insertion order of nodes and arcs
+#   extra   bool                                          unrelated node / arc attributes present
+# The expected answer is the Lean model on the EFFECTIVE network (`nx_build` -> eff): species renamed to the
+# label the documentation says is reported, coefficient 1 where `stoich` is left out; it never comes from the code.
+NX_CLASSES = ["DiGraph", "MultiDiGraph", "Graph", "MultiGraph"]
+NX_HAND = {"flags": ["kind", "bipartite", "both", "mixed"], "stoich": ["all", "none", "mixed"],
+           "arcs": ["forward", "reversed", "mixed"], "ids": ["str", "int", "mixed", "label"],
+           "labels": ["all", "none", "mixed"], "order": ["given", "reversed", "shuffled", "edges-first"]}
+NX_EXPORT_OPTS = {"integer_ids": [False, True], "species_prefix": ["S:", None, "sp_"], "reaction_prefix": ["R:", None, "rx/"],
+                  "include_stoich": [True, False], "include_isolated_species": [True, False],
+                  "include_edge_id_attr": [False, True], "include_mol": [False, True],
+                  "bipartite_values": [[0, 1], [5, 7]]}
+# Marker pairs that reuse 0 / 1 with the other meaning.  The exporter writes `kind` next to them and the node typing is documented as
+# "`kind` if present, otherwise the `bipartite` flag", so these graphs describe the same network; they are kept in a stream of their own
+# and violations found there carry the class below (see `structure_classes`).
+NX_CONFLICTING_MARKERS = [[1, 2], [1, 0], [2, 0], [1, 1]]
+MARKER_CLASS = "nonstandard-bipartite-markers"
+
+
+def structure_classes(case):
+    opts = (case.get("nx") or {}).get("opts") or {}
+    return [MARKER_CLASS] if opts.get("bipartite_values") in NX_CONFLICTING_MARKERS else []
+
+
+def nx_class(name):
+    import networkx as nx
+
+    return {"DiGraph": nx.DiGraph, "MultiDiGraph": nx.MultiDiGraph, "Graph": nx.Graph, "MultiGraph": nx.MultiGraph}[name]
+
+
+def strip_catalysts(desc):
+    """An undirected simple graph has one edge per (species, reaction) pair: drop the product entry of a species
+    that is also a reactant of the same reaction (reactions left without any entry are removed)."""
+    rs = []
+    for r in desc["reactions"]:
+        on_r = {sp for sp, _ in r["r"]}
+        r = dict(r, p=[e for e in r["p"] if e[0] not in on_r])
+        if r["r"] or r["p"]:
+            rs.append(r)
+    return dict(desc, reactions=rs or [{"id": "r_1", "rule": "r", "r": [["A", 1]], "p": []}])
+
+
+def random_nx_spec(rnd, via, cls=None):
+    spec = {"via": via, "cls": cls or rnd.choice(NX_CLASSES), "rseed": rnd.randrange(1 << 30)}
+    if via == "hand":
+        for k, vals in NX_HAND.items():
+            spec[k] = rnd.choice(vals)
+        spec["extra"] = rnd.random() < 0.3
+    else:
+        spec["opts"] = {k: rnd.choice(v) for k, v in NX_EXPORT_OPTS.items() if rnd.random() < 0.5}
+        spec["order"] = rnd.choice(["given", "given", "shuffled"])
+    return spec
+
+
+def nx_build(case):
+    """-> (graph, effective description, realised choices)."""
+    import random as _random
+
+    import networkx as nx
+
+    spec, desc = case["nx"], case["desc"]
+    r0 = _random.Random(spec.get("rseed", 0))
+    cls = spec.get("cls", "DiGraph")
+    multi, directed = cls.startswith("Multi"), cls.endswith("DiGraph")
+    info = {"no_stoich_arcs": 0, "reversed_arcs": 0, "unlabelled_species": 0}
+    if spec["via"] == "export":
+        from synkit.CRN.Hypergraph.conversion import hypergraph_to_bipartite
+
+        opts = dict(spec.get("opts") or {})
+        H = netio.to_hypergraph(desc)
+        if opts.get("include_mol"):
+            H.species_to_mol = {s: {"name": s} for s in sorted(H.species)[::2]}
+        D = hypergraph_to_bipartite(H, **opts)
+        nodes, arcs = list(D.nodes(data=True)), list(D.edges(data=True))
+        if spec.get("order") == "shuffled":
+            r0.shuffle(nodes)
+            r0.shuffle(arcs)
+        if cls == "DiGraph" and spec.get("order") != "shuffled":
+            G = D
+        else:
+            G = nx_class(cls)()
+            G.add_nodes_from((n, dict(d)) for n, d in nodes)
+            for u, v, d in arcs:
+                if not directed and r0.random() < 0.5:
+                    u, v = v, u
+                G.add_edge(u, v, **d)
+        if G.number_of_edges() != len(arcs):
+            raise AssertionError("harness: arcs collapsed while rendering " + json.dumps(case))
+        rs = netio.reactions_of(desc)
+        if opts.get("include_stoich", True) is False:
+            rs = [dict(r, r=[[s, 1] for s, _ in r["r"]], p=[[s, 1] for s, _ in r["p"]]) for r in rs]
+            info["no_stoich_arcs"] = sum(len(r["r"]) + len(r["p"]) for r in rs)
+        iso = list(desc.get("isolated", [])) if opts.get("include_isolated_species", True) else []
+        return G, {"reactions": rs, "isolated": iso}, info
+
+    raw = netio.to_net_json_raw(desc)
+    species, rxns = raw["species"], raw["reactions"]
+    ids, labels, flags = spec.get("ids", "str"), spec.get("labels", "all"), spec.get("flags", "both")
+    nid = {}
+    pool = r0.sample(range(1, 400), len(species) + len(rxns))
+    for k, s in enumerate(species):
+        as_int = ids == "int" or (ids == "mixed" and r0.random() < 0.5)
+        nid["s", s] = pool[k] if as_int else (s if ids == "label" else "S:" + s)
+    for k, r in enumerate(rxns):
+        as_int = ids == "int" or (ids == "mixed" and r0.random() < 0.5)
+        nid["r", r["id"]] = pool[len(species) + k] if as_int else (r["id"] if ids == "label" else "R:" + r["id"])
+    attrs, shown = {}, {}
+    for kind, items in (("s", species), ("r", [r["id"] for r in rxns])):
+        for x in items:
+            f = r0.choice(["kind", "bipartite", "both"]) if flags == "mixed" else flags
+            a = {}
+            if f in ("kind", "both"):
+                a["kind"] = "species" if kind == "s" else "reaction"
+            if f in ("bipartite", "both"):
+                a["bipartite"] = 0 if kind == "s" else 1
+            has_label = labels == "all" or (labels == "mixed" and r0.random() < 0.5)
+            if kind == "s":
+                if has_label:
+                    a["label"] = x
+                else:
+                    info["unlabelled_species"] += 1
+                shown[x] = x if has_label else str(nid[kind, x])
+            elif has_label:
+                a["label"] = next(r["rule"] for r in rxns if r["id"] == x)
+            if spec.get("extra"):
+                a[r0.choice(["mol", "edge_id", "weight", "color"])] = r0.choice([0, 1, "x", None])
+            attrs[nid[kind, x]] = a
+    smode, amode = spec.get("stoich", "all"), spec.get("arcs", "forward")
+    arcs, eff_rs = [], []
+    for r in rxns:
+        pair_dir = {}
+        eff = {"id": r["id"], "rule": r["rule"], "r": [], "p": []}
+        for side, role in (("r", "reactant"), ("p", "product")):
+            for s, c in r[side]:
+                d = {"role": role}
+                if c >= 1 and (smode == "none" or (smode == "mixed" and r0.random() < 0.5)):
+                    c = 1
+                    info["no_stoich_arcs"] += 1
+                else:
+                    d["stoich"] = int(c)
+                if spec.get("extra") and r0.random() < 0.3:
+                    d["order"] = r0.choice([0, 1, 2])
+                rev = amode == "reversed" or (amode == "mixed" and r0.random() < 0.5)
+                if not multi:  # one arc per ordered pair: both arcs of a catalyst keep the same orientation rule
+                    rev = pair_dir.setdefault(s, rev)
+                u, v = (nid["s", s], nid["r", r["id"]]) if role == "reactant" else (nid["r", r["id"]], nid["s", s])
+                if rev:
+                    u, v = v, u
+                    info["reversed_arcs"] += 1
+                arcs.append((u, v, d))
+                eff[side].append([shown[s], int(c)])
+        eff_rs.append(eff)
+    order = spec.get("order", "given")
+    nodes = list(attrs.items())
+    if order == "reversed":
+        nodes.reverse()
+        arcs.reverse()
+    elif order in ("shuffled", "edges-first"):
+        r0.shuffle(nodes)
+        r0.shuffle(arcs)
+    G = nx_class(cls)()
+    if order == "edges-first":  # nodes come into being through their arcs, attributes follow later
+        for u, v, d in arcs:
+            G.add_edge(u, v, **d)
+        for n, a in nodes:
+            G.add_node(n, **a)
+    else:
+        for n, a in nodes:
+            G.add_node(n, **a)
+        for u, v, d in arcs:
+            G.add_edge(u, v, **d)
+    if G.number_of_edges() != len(arcs):
+        raise AssertionError("harness: arcs collapsed while rendering " + json.dumps(case))
+    return G, {"reactions": eff_rs, "isolated": [shown[s] for s in species]}, info
+
+
+def random_nx_case(rnd, via, cls=None):
+    spec = random_nx_spec(rnd, via, cls)
+    desc = random_desc(rnd, max_species=5, max_rxn=4)
+    if via == "hand":
+        for r in desc["reactions"]:
+            for side in ("r", "p"):
+                for ent in r[side]:
+                    if rnd.random() < 0.08:
+                        ent[1] = 0
+        if rnd.random() < 0.08:  # a reaction node without any arc
+            desc["reactions"].append({"id": "bare", "rule": "r", "r": [], "p": []})
+    if spec["cls"] == "Graph":
+        desc = strip_catalysts(desc)
+    desc["isolated"] = ["Z"] if rnd.random() < 0.2 else []
+    n = len(netio.to_net_json_raw(desc)["species"])
+    return {"stream": "structure", "desc": desc, "max_size": rnd.choice([None, None, None, 1, 2, 3, n + 1]), "raw": True, "nx": spec}
+
+
+def count_nx(ctx, case, info):
+    spec = case["nx"]
+    ctx.count(f"nx:via={spec['via']}:cls={spec.get('cls')}")
+    if spec["via"] == "hand":
+        for k in ("flags", "stoich", "arcs", "ids", "labels", "order"):
+            ctx.count(f"nx:hand:{k}={spec.get(k)}")
+    else:
+        for k, v in sorted((spec.get("opts") or {}).items()):
+            ctx.count(f"nx:export:{k}={v}")
+        ctx.count(f"nx:export:order={spec.get('order')}")
+    ctx.count("nx:arcs without stoich=" + ("0" if not info["no_stoich_arcs"] else "1+"))
+    ctx.count("nx:arcs written against their role=" + ("0" if not info["reversed_arcs"] else "1+"))
+    ctx.count("nx:species without label=" + ("0" if not info["unlabelled_species"] else "1+"))
+
+
 def impl_structure(case):
     from synkit.CRN.Petri import find_siphons, find_traps
 
-    if case.get("raw"):
+    if case.get("nx"):
+        crn = nx_build(case)[0]
+    elif case.get("raw"):
         crn = to_bipartite_variant(case["desc"], case.get("render"))
     else:
         crn = netio.to_hypergraph(case["desc"])
@@ -111,6 +337,8 @@ def impl_structure(case):
 
 
 def net_json(case):
+    if case.get("nx"):
+        return netio.to_net_json_raw(nx_build(case)[1])
     return netio.to_net_json_raw(case["desc"]) if case.get("raw") else netio.to_net_json(case["desc"])
 
 
@@ -162,9 +390,10 @@ def shrink_structure(ctx, case):
     return out
 
 
-def run_structure(ctx, cases, tag, spec_all=False):
+def run_structure(ctx, cases, tag, spec_all=False, max_new=5):
     if not cases:
         return
+    start = len(ctx.violations)
     models = ctx.lean().ok([structure_request(c) for c in cases], shards=8)
     pending_spec = []
     for case, model in zip(cases, models):
@@ -174,13 +403,40 @@ def run_structure(ctx, cases, tag, spec_all=False):
                 ctx.violation("network encoder and bipartite view disagree (harness assumption, not the property)",
                               case, {"detail": msg, "stream": tag}, no_input=True)
                 continue
-        impl = impl_structure(case)
+        try:
+            impl = impl_structure(case)
+        except AssertionError:
+            raise
+        except Exception as e:
+            # a well-formed network in a documented rendering for which no family is reported at all
+            kind = type(e).__name__
+
+            def raises(cand):
+                try:
+                    impl_structure(dict(case, desc=dict(case["desc"], reactions=cand)))
+                except AssertionError:
+                    return False
+                except Exception as e2:
+                    return bool(cand) and type(e2).__name__ == kind
+                return False
+            small = dict(case, desc=dict(case["desc"], reactions=shrink_seq(case["desc"]["reactions"], raises, budget=60)))
+            ctx.count(f"structure[{tag}]")
+            ctx.case(["structure", case], False)
+            ctx.violation("find_siphons / find_traps raise on a well-formed network (CRNHyperGraph or documented bipartite graph): no siphons / traps are reported",
+                          small, {"exception": f"{kind}: {e}", "stream": tag, "net": netio.fmt(small["desc"]),
+                                  "model": {k: fam(model[k]) for k in ("siphons", "traps")}},
+                          classes=["raises-on-well-formed-network"] + structure_classes(case))
+            if len(ctx.violations) >= 5 or len(ctx.violations) - start >= max_new:
+                return
+            continue
         n_sp = len(net_json(case)["species"])
         ctx.count(f"structure[{tag}]")
         ctx.count(f"structure:species={n_sp}")
         ctx.count(f"structure:siphons={min(len(impl['siphons']), 3)}{'+' if len(impl['siphons']) >= 3 else ''}")
         ctx.count(f"structure:traps={min(len(impl['traps']), 3)}{'+' if len(impl['traps']) >= 3 else ''}")
         ctx.count("structure:max_size=" + ("None" if case.get("max_size") is None else "given"))
+        if case.get("nx"):
+            count_nx(ctx, case, nx_build(case)[2])
         nontrivial = bool(model["siphons"] or model["traps"]) and len(case["desc"]["reactions"]) >= 2
         ctx.case(["structure", case], nontrivial,
                  sample={"stream": tag, "net": netio.fmt(case["desc"]), "max_size": case.get("max_size"),
@@ -196,11 +452,12 @@ def run_structure(ctx, cases, tag, spec_all=False):
             simpl = impl_structure(small)
             ctx.violation("reported siphons/traps are not exactly the inclusion-minimal closed sets",
                           small, {"impl": simpl, "spec": spec_structure(ctx, small, simpl), "stream": tag,
-                                  "net": netio.fmt(small["desc"]), "original": netio.fmt(case["desc"])})
+                                  "net": netio.fmt(small["desc"]), "original": netio.fmt(case["desc"])},
+                          classes=structure_classes(case))
         else:
             ctx.violation("correspondence structure: impl and model families differ although the specification holds",
                           case, {"diff": d, "stream": tag}, no_input=True)
-        if len(ctx.violations) >= 5:
+        if len(ctx.violations) >= 5 or len(ctx.violations) - start >= max_new:
             return
     # independent spec evaluation on the implementation's answers (brute force, not `_minimal_sets`)
     if pending_spec:
@@ -218,18 +475,104 @@ def run_structure(ctx, cases, tag, spec_all=False):
             ctx.count("structure:spec_checked")
 
 
-def analyzer_consistent(ctx, case):
-    """`PetriAnalyzer` must hand out what `find_siphons` / `find_traps` return."""
+def analyzer_consistent(ctx, case, how="siphons_traps"):
+    """`PetriAnalyzer` must hand out what `find_siphons` / `find_traps` return (attributes, or the
+    `summary` record after `compute_all`); built on a CRNHyperGraph or on the plain NetworkX graph of the case."""
     from synkit.CRN.Petri import PetriAnalyzer
 
-    H = netio.to_hypergraph(case["desc"])
-    an = PetriAnalyzer(H, max_siphon_size=case.get("max_size")).compute_siphons_traps()
-    got = {"siphons": fam(an.siphons), "traps": fam(an.traps)}
+    H = nx_build(case)[0] if case.get("nx") else netio.to_hypergraph(case["desc"])
+    an = PetriAnalyzer(H, max_siphon_size=case.get("max_size"))
+    got = None
+    if how == "summary":
+        try:
+            an.summary, an.explain()  # before any computation: executed, not gated
+            an.compute_all()
+            sm = an.summary
+            an.explain(), repr(an), an.p_semiflows, an.t_semiflows, an.persistence_ok  # executed, not gated
+            if sm is not None:
+                got = {"siphons": fam(sm.siphons), "traps": fam(sm.traps)}
+                ctx.count("structure:analyzer_summary_checked")
+        except Exception:  # the numerical parts (semiflows, persistence) are not C20's subject
+            ctx.count("structure:analyzer compute_all raised (numerical part, not gated)")
+    if got is None:
+        an.compute_siphons_traps()
+        got = {"siphons": fam(an.siphons), "traps": fam(an.traps)}
     want = impl_structure(case)
     ctx.count("structure:analyzer_checked")
+    ctx.count("structure:analyzer_checked:" + ("networkx" if case.get("nx") else "hypergraph"))
     if got != want:
-        ctx.violation("PetriAnalyzer reports other siphons/traps than find_siphons/find_traps", case,
-                      {"analyzer": got, "functions": want})
+        ctx.violation("PetriAnalyzer reports other siphons/traps than find_siphons/find_traps", dict(case, analyzer=how),
+                      {"analyzer": got, "functions": want, "how": how})
+
+
+# --------------------------------------------------------------- degenerate inputs of find_siphons / find_traps
+DEGENERATE_SHAPES = ["species-only", "reactions-only", "empty", "unflagged", "empty-hypergraph", "none", "list-of-strings"]
+
+
+def degenerate_input(case):
+    import networkx as nx
+    from synkit.CRN.Hypergraph.hypergraph import CRNHyperGraph
+
+    shape = case["shape"]
+    if shape == "empty-hypergraph":
+        return CRNHyperGraph()
+    if shape == "none":
+        return None
+    if shape == "list-of-strings":
+        return ["A>>B"]
+    G = nx_class(case.get("cls", "DiGraph"))()
+    sp = {"kind": "species"} if case.get("flags") == "kind" else {"bipartite": 0}
+    rx = {"kind": "reaction"} if case.get("flags") == "kind" else {"bipartite": 1}
+    if shape == "species-only":
+        for x in case["species"]:
+            G.add_node("S:" + x, label=x, **sp)
+    elif shape == "reactions-only":
+        G.add_node("R:r_1", label="r", **rx)
+    elif shape == "unflagged":  # a reaction network drawn without any node typing
+        G.add_edge("A", "r_1", role="reactant", stoich=1)
+        G.add_edge("r_1", "B", role="product", stoich=1)
+    return G
+
+
+def run_structure_degenerate(ctx, cases, tag):
+    """Inputs that are no bipartite species/reaction graph, or one without reactions.  C20 speaks about reported
+    families only: a rejection (ValueError / TypeError) is recorded, not gated; a family that IS returned for a
+    network without reactions must be the model's (every single species is a siphon and a trap)."""
+    from synkit.CRN.Petri import find_siphons, find_traps
+
+    for case in cases:
+        out = {}
+        for key, fn in (("siphons", find_siphons), ("traps", find_traps)):
+            try:
+                out[key] = fam(fn(degenerate_input(case), max_size=case.get("max_size")))
+            except (ValueError, TypeError) as e:
+                out[key] = type(e).__name__
+        ctx.count(f"degenerate[{tag}]")
+        ctx.count(f"degenerate:{case['shape']}:" + "/".join(v if isinstance(v, str) else "family" for v in out.values()))
+        ctx.case(["structure-degenerate", case], False, sample={"stream": tag, **case, "outcome": out})
+        if case["shape"] not in ("species-only", "reactions-only", "empty", "empty-hypergraph"):
+            continue
+        if all(isinstance(v, str) for v in out.values()):
+            continue
+        net = {"species": sorted(case.get("species", [])) if case["shape"] == "species-only" else [], "reactions": []}
+        model = ctx.lean().ok([{"cmd": "petri.structure", "net": net, "max_size": case.get("max_size")}])[0]
+        for key in ("siphons", "traps"):
+            if not isinstance(out[key], str) and out[key] != fam(model[key]):
+                ctx.violation("reported siphons/traps of a network without reactions are not exactly the inclusion-minimal closed sets",
+                              case, {"impl": out, "model": {k: fam(model[k]) for k in ("siphons", "traps")}, "stream": tag})
+                break
+
+
+def degenerate_cases(rnd):
+    cases = []
+    for shape in DEGENERATE_SHAPES:
+        if shape in ("empty-hypergraph", "none", "list-of-strings"):
+            cases.append({"stream": "structure-degenerate", "shape": shape, "max_size": None})
+            continue
+        for cls in NX_CLASSES:
+            cases.append({"stream": "structure-degenerate", "shape": shape, "cls": cls, "flags": rnd.choice(["kind", "bipartite"]),
+                          "species": list("ABC")[: rnd.randint(1, 3)], "max_size": rnd.choice([None, 1])})
+    return cases
 
 
 def unit_reactions(species):
@@ -412,6 +755,10 @@ def pr_inputs(case):
     fl = dict(map(tuple, flow))
     if case.get("via_hypergraph"):
         H = netio.to_hypergraph(case["desc"])
+        if case.get("flow_default"):  # documented: without a flow every edge gets flow 1
+            if sorted(fl.items()) != sorted((r["id"], 1) for r in rs):
+                raise AssertionError("harness: flow_default needs the all-ones flow in the case")
+            return hypergraph_to_pr_inputs(H)
         return hypergraph_to_pr_inputs(H, flow={r["id"]: fl.get(r["id"], 0) for r in rs})
     v = list(vertices)
     e = {r["id"]: (dict(map(tuple, r["r"])), dict(map(tuple, r["p"]))) for r in rs}
@@ -436,9 +783,50 @@ def pr_inputs(case):
     return v, e, fl
 
 
+def rxn_strings(case):
+    """The reactions of the description as reaction strings, in the given order ('2 A + B>>C', '>>A', 'A>>')."""
+    style = case["via_strings"].get("style", 0)
+
+    def side(x):
+        return " + ".join((s if c == 1 else (f"{c} {s}" if style else f"{c}{s}")) for s, c in x)
+    return [side(r["r"]) + (" >> " if style == 2 else ">>") + side(r["p"]) for r in netio.reactions_of(case["desc"])]
+
+
+def impl_realizable_strings(case):
+    """`run_realizability_from_rxn_strings`: parse, load, build, Koenig + BFS with the default bounds.  The reactions are
+    numbered r_1.. in the order given (id generation is C15's subject; checked here, reported as a harness assumption)."""
+    import contextlib
+    import io
+
+    from synkit.CRN.Path.realizability import run_realizability_from_rxn_strings
+
+    vs = case["via_strings"]
+    rs = netio.reactions_of(case["desc"])
+    flow = None if vs.get("flow_none") else dict(map(tuple, case["flow"]))
+    buf = io.StringIO()
+    with contextlib.redirect_stdout(buf):
+        pr, info = run_realizability_from_rxn_strings(iter(rxn_strings(case)) if vs.get("iterator") else rxn_strings(case),
+                                                      flow=flow, verbose=bool(vs.get("verbose")))
+    want = {r["id"]: (dict(map(tuple, r["r"])), dict(map(tuple, r["p"]))) for r in rs}
+    if {k: (dict(t), dict(h)) for k, (t, h) in pr.edges.items()} != want or list(pr.edges) != [r["id"] for r in rs]:
+        return {"verdict": "parser-differs", "detail": f"edges {pr.edges} != {want}"}
+    net = pr.petri
+    return {"places": sorted(net.places), "transitions": list(net.transitions),
+            "arcs": [{"tid": t.tid, "pre": sorted([k, int(w)] for k, w in t.pre.items()),
+                      "post": sorted([k, int(w)] for k, w in t.post.items())} for t in net.transitions.values()],
+            "M0": sorted([k, int(w)] for k, w in pr.initial_marking.items()),
+            "MT": sorted([k, int(w)] for k, w in pr.target_marking.items()),
+            "verdict": "found" if info["bfs"] else "notFound",
+            "seq": None if info["certificate"] is None else list(info["certificate"]),
+            "cert_attr": None if pr.certificate is None else list(pr.certificate),
+            "printed": bool(buf.getvalue())}
+
+
 def impl_realizable(case):
     from synkit.CRN.Path.realizability import PathwayRealizability, RealizabilityConfig
 
+    if case.get("via_strings"):
+        return impl_realizable_strings(case)
     ms, md = case["max_states"], case["max_depth"]
     v, e, f = pr_inputs(case)
     if case.get("via_config"):
@@ -542,7 +930,8 @@ def realizable_spec(ctx, case, impl):
 def shrink_realizable(ctx, case):
     def bad(c):
         try:
-            return realizable_spec(ctx, c, impl_realizable(c)) is not None
+            impl = impl_realizable(c)
+            return impl["verdict"] != "parser-differs" and realizable_spec(ctx, c, impl) is not None
         except Exception:
             return False
     rs = case["desc"]["reactions"]
@@ -568,6 +957,15 @@ def run_realizable(ctx, cases, tag):
     models = ctx.lean().ok([realizable_request(c) for c in cases], shards=8)
     for case, model in zip(cases, models):
         impl = impl_realizable(case)
+        if impl["verdict"] == "parser-differs":
+            ctx.violation("reaction-string parser / id generation differs from the harness encoding (harness assumption, not the property)",
+                          case, {"detail": impl["detail"], "stream": tag}, no_input=True)
+            return
+        if case.get("via_strings"):
+            ctx.count("realizable:strings:" + ("flow=None" if case["via_strings"].get("flow_none") else "flow given")
+                      + (":verbose" if case["via_strings"].get("verbose") else ""))
+        if case.get("flow_default"):
+            ctx.count("realizable:hypergraph_to_pr_inputs without flow")
         if model["verdict"] == "fuelOut":
             ctx.violation("model BFS ran out of fuel (contradicts bfs_never_fuelOut)", case, None, no_input=True)
             return
@@ -775,6 +1173,31 @@ def random_pathway_case(rnd, max_species=4, small=False):
         rnd.shuffle(order)
         case["edge_order"] = order
     return case
+
+
+def entry_point_case(rnd, i):
+    """The same kind of pathway handed over through the other documented routes: `hypergraph_to_pr_inputs(H)` without
+    a flow (every edge then has flow 1) and `run_realizability_from_rxn_strings` (flow given or None, default bounds)."""
+    c = random_pathway_case(rnd, max_species=3 if i % 3 == 0 else 4, small=(i % 2 == 0))
+    rs = c["desc"]["reactions"]
+    ren = {r["id"]: f"r_{k + 1}" for k, r in enumerate(rs)}
+    fl = {ren[k]: v for k, v in c["flow"] if k in ren}
+    c["desc"] = {"reactions": [dict(r, id=ren[r["id"]], rule="r") for r in rs], "isolated": []}
+    c.pop("edge_order", None)
+    c.update(via_hypergraph=True, via_config=False)
+    ones = i % 3 != 2
+    c["flow"] = [[f"r_{k + 1}", 1 if ones else fl.get(f"r_{k + 1}", 0)] for k in range(len(rs))]
+    if ones:
+        c["kind"] = "all-ones"
+    if i % 2 == 0:
+        c["max_states"], c["max_depth"] = DEFAULT_BOUNDS
+        c["via_strings"] = {"style": rnd.randrange(3), "flow_none": ones and rnd.random() < 0.7, "verbose": rnd.random() < 0.3,
+                            "iterator": rnd.random() < 0.3}
+    else:
+        c["flow_default"] = True
+        c["flow"] = [[f"r_{k + 1}", 1] for k in range(len(rs))]
+        c["kind"] = "all-ones"
+    return dict(c, stream="realizable")
 
 
 # =============================================================== histories on ONE PathwayRealizability object
@@ -1024,7 +1447,15 @@ def impl_pr_history(case):
                     data = json.loads(open(fn).read())
                     rec["M0"], rec["MT"] = _pairs(data["initial"]), _pairs(data["target"])
                 elif kind == "markings":
-                    rec["M0"], rec["MT"] = _pairs(pr.initial_marking), _pairs(pr.target_marking)
+                    got = []
+                    for name in ("target_marking", "initial_marking"):  # each accessor on its own (either may raise)
+                        try:
+                            got.append(_pairs(getattr(pr, name)))
+                        except RuntimeError:
+                            got.append(None)
+                    if None in got:
+                        raise RuntimeError("markings not available")
+                    rec["MT"], rec["M0"] = got
             except RuntimeError:
                 rec["error"] = "RuntimeError"
             rec["loaded"], rec["built"] = loaded[o], built[o]
@@ -1621,7 +2052,11 @@ def load_regress():
 def dispatch(ctx, case, tag):
     k = case.get("stream", "structure")
     if k == "structure":
-        run_structure(ctx, [case], tag, spec_all=True)
+        run_structure(ctx, [{x: y for x, y in case.items() if x != "analyzer"}], tag, spec_all=True)
+        if case.get("analyzer") and not ctx.violations:
+            analyzer_consistent(ctx, {x: y for x, y in case.items() if x != "analyzer"}, how=case["analyzer"])
+    elif k == "structure-degenerate":
+        run_structure_degenerate(ctx, [case], tag)
     elif k == "firing":
         run_firing(ctx, [case], tag)
     elif k == "pr-history":
@@ -1647,6 +2082,14 @@ def run(ctx):
         "species labels are distinct strings that do not start with '__ext__' or '__target__' (the code builds place names by concatenation)",
         "reaction ids are distinct (dict keys), sides are dicts with positive integer coefficients (RXNSide normalisation; C15/C16 cover the store)",
         "max_size, max_states, max_depth are non-negative integers or None",
+        "plain NetworkX inputs: every node is typed by kind and/or the bipartite flag (0 species, 1 reaction; other marker values only "
+        "next to kind), every arc carries role; a missing stoich is coefficient 1; a species without label is reported as str(node id); "
+        "the direction an arc is written in carries no meaning (role does); the expected families are the Lean model's on the network so "
+        "described (species renamed to the reported labels) - the rendering code nx_build is trusted, the code under test is not consulted",
+        "an exception raised by find_siphons / find_traps on such a well-formed network is reported as a violation (no family is reported "
+        "although C20 fixes it); on inputs that are no species/reaction graph (degenerate stream) a rejection is recorded, not gated",
+        "run_realizability_from_rxn_strings: reactions are numbered r_1.. in the order given and parsed into the sides written (C15 / parser "
+        "properties; checked on every case and reported as a harness assumption when it fails)",
         "C20 'within the search bounds' (DESIGN 5a): a firing sequence of length <= max_depth exists and at most max_states markings are reachable",
         "history streams: the pathway an is_realizable answer is judged against is the one passed to the LAST load_hypergraph_and_flow on that object "
         "(attributes are never assigned from outside); effective bounds = argument, else the object's RealizabilityConfig, else 100000/10000; "
@@ -1671,7 +2114,23 @@ def run(ctx):
         "overwrites) / add_place / enabled / fire / marking_to_tuple, markings fresh or a dict returned by an earlier fire; ANALYZER-HISTORY = "
         "1-2 PetriAnalyzers (max_siphon_size None/1/2/3) built once on a CRNHyperGraph or a hand-built bipartite DiGraph that is then edited "
         "in place (add / remove reaction, remove species, zero-coefficient arcs), compute_siphons_traps / compute_all / as_dict / "
-        "check_persistence and find_siphons/find_traps (on the object or a copy) in between.")
+        "check_persistence and find_siphons/find_traps (on the object or a copy) in between. "
+        "PLAIN NETWORKX INPUTS (counters nx:*): random networks (<=5 species, <=4 reactions, coefficients 0..3, isolated species, a reaction "
+        "node without arcs) rendered as a bipartite graph, 80 (quick) / 400 per graph class DiGraph / MultiDiGraph / Graph / MultiGraph "
+        "(undirected simple graphs: no species on both sides of a reaction; multigraphs: parallel reactant + product edges), HAND-BUILT with "
+        "independent uniform choices of node typing (kind / bipartite / both / per node), stoich attribute (all / none / per arc; a missing "
+        "stoich counts as 1), arc direction (species->reaction for reactants / the other way round / per arc; role is the convention), node "
+        "ids (prefixed strings / integers / both / bare labels), species label attribute (all / none / per node; unlabelled species are "
+        "reported as str(node id)), insertion order (given / reversed / shuffled / nodes created by their arcs first), unrelated attributes; "
+        "EXPORTED by hypergraph_to_bipartite with each of integer_ids, species_prefix, reaction_prefix, include_stoich, "
+        "include_isolated_species, include_edge_id_attr, include_mol, bipartite_values in {(0,1),(5,7)} set with probability 1/2 to a "
+        "uniform value, copied into the graph class with given or shuffled order; every 4th of these also through PetriAnalyzer "
+        "(compute_siphons_traps, or compute_all + summary). DEGENERATE inputs (species only, reactions only, empty graph / hypergraph, "
+        "untyped nodes, None, a list): rejection recorded, a returned family gated. At the very end 2 x 16 (quick) exported graphs whose "
+        "bipartite markers reuse 0/1 with the other meaning ((1,2),(1,1) | (1,0),(2,0)), one reported input per group, class "
+        "nonstandard-bipartite-markers. REALIZABILITY, other entry points: 120 (quick) pathways through hypergraph_to_pr_inputs(H) without a "
+        "flow (all-ones flow) and through run_realizability_from_rxn_strings (three spellings of the reaction strings, list or iterator, flow "
+        "None or given for every edge, verbose on/off, default bounds 100000/10000).")
     ctx.nontrivial_rule = ("structure: >=2 reactions and at least one siphon or trap; firing: some query enabled; "
                            "realizability: total flow >=2 on >=2 reactions; pr-history: >=2 judged is_realizable answers; net-history: some "
                            "query enabled; analyzer-history: >=2 judged families and >=1 edit; distinct as JSON values")
@@ -1680,6 +2139,16 @@ def run(ctx):
     for c in load_regress():
         dispatch(ctx, c["case"] if "case" in c else c, "regress")
         ctx.count("regress_cases")
+        if c.get("expect") and c["case"].get("stream") == "structure":
+            # the answer written into the corpus file by hand: impl and model must both give it
+            want = {k: fam(c["expect"][k]) for k in ("siphons", "traps")}
+            model = ctx.lean().ok([structure_request(c["case"])])[0]
+            if {k: fam(model[k]) for k in ("siphons", "traps")} != want:
+                ctx.violation("model answer differs from the answer recorded in the regression corpus (model / driver / encoder drift)",
+                              c["case"], {"model": model, "expect": want}, no_input=True)
+            elif impl_structure(c["case"]) != want and not ctx.violations:
+                ctx.violation("reported siphons/traps are not exactly the inclusion-minimal closed sets", c["case"],
+                              {"impl": impl_structure(c["case"]), "expect": want, "stream": "regress"})
     if ctx.violations:
         ctx.obligation("correspondence: regression inputs", False)
         return
@@ -1744,7 +2213,23 @@ def run(ctx):
             desc["isolated"] = ["Z"] if rnd.random() < 0.15 else []
             var.append({"stream": "structure", "desc": desc, "max_size": rnd.choice([None, None, 1, 2, 3]), "raw": True, "render": render})
         run_structure(ctx, var, "raw-bipartite-renderings", spec_all=True)
-    ctx.obligation("correspondence: find_siphons / find_traps / PetriAnalyzer == model, families as sets of label sets", not ctx.violations)
+    if not ctx.violations:
+        # plain NetworkX inputs in every documented variation (see the table above `nx_build`)
+        n_each = 80 if ctx.quick else 400
+        hand = [random_nx_case(rnd, "hand", cls) for cls in NX_CLASSES for _ in range(n_each)]
+        run_structure(ctx, hand, "networkx-hand-built", spec_all=True)
+        if not ctx.violations:
+            exp = [random_nx_case(rnd, "export", cls) for cls in NX_CLASSES for _ in range(n_each)]
+            run_structure(ctx, exp, "networkx-exported", spec_all=True)
+            for i, c in enumerate((hand + exp)[:: 4 if ctx.quick else 8]):
+                if not ctx.violations:
+                    analyzer_consistent(ctx, c, how="summary" if i % 2 else "siphons_traps")
+    if not ctx.violations:
+        for i, c in enumerate(rc[60: 90 if ctx.quick else 400]):
+            analyzer_consistent(ctx, c, how="summary")
+        run_structure_degenerate(ctx, degenerate_cases(rnd), "degenerate")
+    ctx.obligation("correspondence: find_siphons / find_traps / PetriAnalyzer == model, families as sets of label sets",
+                   not ctx.violations)
 
     # ---- firing
     nv = len(ctx.violations)
@@ -1766,6 +2251,8 @@ def run(ctx):
                 c["edge_order"] = list(range(len(c["desc"]["reactions"])))
             rare.append(dict(decorate_pathway(rnd, c), stream="realizable"))
         run_realizable(ctx, rare, "rare-input-shapes")
+    if len(ctx.violations) == nv:
+        run_realizable(ctx, [entry_point_case(rnd, i) for i in range(120 if ctx.quick else 1200)], "other-entry-points")
     ctx.obligation("correspondence: extended net, verdict under equal bounds == model; certificate valid (Lean spec); "
                    "verdict consistent with exhaustive reachability", len(ctx.violations) == nv)
 
@@ -1782,6 +2269,16 @@ def run(ctx):
     run_analyzer_histories(ctx, [random_analyzer_history(rnd) for _ in range(200 if ctx.quick else 2000)], "history")
     ctx.obligation("histories on PetriAnalyzer / network objects edited in place: every computed siphon/trap family is that of the "
                    "network as it is at that moment", len(ctx.violations) == nv)
+
+    # ---- last, so that nothing above is cut short by it: exported graphs whose `bipartite` markers reuse 0 / 1 with the other
+    # meaning (one reported input per group: species marker 1 / reaction marker 0); violations carry MARKER_CLASS
+    for group in (NX_CONFLICTING_MARKERS[::3], NX_CONFLICTING_MARKERS[1:3]):
+        mk = []
+        for i in range(16 if ctx.quick else 160):
+            c = random_nx_case(rnd, "export", NX_CLASSES[i % 4])
+            c["nx"]["opts"]["bipartite_values"] = group[(i // 4) % 2]
+            mk.append(c)
+        run_structure(ctx, mk, "networkx-exported-marker-values", spec_all=True, max_new=1)
 
 
 def replay(ctx, case):
